@@ -115,7 +115,7 @@ Lemma digits_le_spec : forall f n, 0 <= n < 10 ^ Z.of_nat f -> (0 < f)%nat ->
 Proof.
   induction f as [|f IH]; intros n B P; [lia|].
   cbn [digits_le]. destruct (n <? 10) eqn:E.
-  - apply Z.ltb_lt in E. repeat split.
+  - apply Z.ltb_lt in E. split; [|split].
     + cbn. lia.
     + constructor; [unfold isdig; lia|constructor].
     + discriminate.
@@ -126,7 +126,7 @@ Proof.
     assert (B' : 0 <= n / 10 < 10 ^ Z.of_nat f).
     { split; [apply Z.div_pos; lia|apply Z.div_lt_upper_bound; lia]. }
     destruct (IH (n / 10) B' Pf) as [V [F NE]].
-    repeat split.
+    split; [|split].
     + cbn [val_le fold_right]. unfold val_le in V. rewrite V.
       pose proof (Z.div_mod n 10). lia.
     + constructor; [unfold isdig; pose proof (Z.mod_pos_bound n 10); lia|exact F].
